@@ -134,6 +134,9 @@ type c11Params struct {
 	// never runs), some remote snapshots bring nothing but a deletion marker past the retention for an absent key, and
 	// some application commits land inside a sync step: after its LMDB transaction ended, before it returns.
 	Window bool `json:"commits_inside_steps,omitempty"`
+	// RecvOnly (loop-protocol mode): the instance runs receive-only; capture and projection work as ever, nothing is
+	// ever stored
+	RecvOnly bool `json:"receive_only,omitempty"`
 }
 
 func C11() *runner.Property {
@@ -156,6 +159,7 @@ func C11() *runner.Property {
 			for i := 0; i < n; i++ {
 				p := c11Params{Seed: r.U64(), Steps: 5 + r.Intn(36), IntKeys: []int{0, 0, 4, 8}[i%4], NDBI: 1 + r.Intn(4), Empty: i%10 == 9, Proto: i%2 == 1 && i%10 != 9, Future: i%10 == 6 || i%10 == 7}
 				p.Window = p.Proto && !p.Future && i%4 == 1
+				p.RecvOnly = p.Proto && !p.Future && i%8 == 3
 				fam := "bytes"
 				if p.IntKeys > 0 {
 					fam = fmt.Sprintf("int%d", p.IntKeys)
@@ -171,6 +175,9 @@ func C11() *runner.Property {
 				}
 				if p.Window {
 					fam += "-window"
+				}
+				if p.RecvOnly {
+					fam += "-recvonly"
 				}
 				cs = append(cs, runner.MkCase(fam, fmt.Sprint(i), p))
 			}
@@ -233,6 +240,7 @@ func runC11(c runner.Case, env *runner.Env) (res runner.Result) {
 		conf.Sweeper = config.Sweeper{Enabled: true, RetentionDays: 1, Interval: time.Hour, FirstInterval: time.Hour, LockDuration: time.Second, ReleaseDuration: time.Second}
 		opt.Conf = &conf
 	}
+	opt.Options.ReceiveOnly = p.RecvOnly
 	x, err := inst.New(env.Dir("c11"), b, "db", "a", opt)
 	if err != nil {
 		res.Verdict, res.Msg = runner.Inconclusive, err.Error()
@@ -347,6 +355,17 @@ func runC11(c runner.Case, env *runner.Env) (res runner.Result) {
 		// return (the instant at which LMDB may hand the id of an unrecorded transaction to the application)
 		var inWin *change
 		winFired := false
+		var earlyKey []byte
+		earlyVal := fmt.Sprintf("before-txn-%d", step)
+		earlyFired := false
+		var earlyBegin uint64
+		if p.Window && forced == "" && r.Chance(1, 3) {
+			earlyKey = []byte(fmt.Sprintf("pre-%02d", step%5))
+			if p.IntKeys > 0 {
+				earlyKey = make([]byte, p.IntKeys)
+				earlyKey[0] = byte(220 + step%5)
+			}
+		}
 		if p.Window && ((forced == "" && r.Chance(1, 2)) || forced == "load-staletomb+win") && len(dbiNames) > 0 {
 			d := dbiNames[0]
 			if _, ok := m.main[d]; ok || true {
@@ -360,7 +379,22 @@ func runC11(c runner.Case, env *runner.Env) (res runner.Result) {
 				if kind == "send" {
 					point = "send.after_txn"
 				}
+				earlyPoint := "load.before_txn"
+				if kind == "send" {
+					earlyPoint = "send.before_txn"
+				}
 				verifhook.Set(func(instance, pt, detail string) {
+					if pt == earlyPoint && !earlyFired && earlyKey != nil {
+						// a commit after the step was called and before its transaction begins: this very step
+						// detects it, so its stamp cannot lie before the commit
+						earlyFired = true
+						time.Sleep(2 * time.Millisecond)
+						earlyBegin = uint64(time.Now().UnixNano())
+						_, _ = lmdbx.Update(x.Env, func(txn *lmdb.Txn) error {
+							return lmdbx.Put(txn, inWin.dbi, createFlags, earlyKey, []byte(earlyVal))
+						})
+						return
+					}
 					if pt != point || winFired {
 						return
 					}
@@ -370,6 +404,9 @@ func runC11(c runner.Case, env *runner.Env) (res runner.Result) {
 					})
 				})
 			}
+		}
+		if inWin == nil {
+			earlyKey = nil // the hook is only installed together with the in-step commit
 		}
 		var snap *wire.Snap
 		if kind == "load-remote" {
@@ -526,6 +563,15 @@ func runC11(c runner.Case, env *runner.Env) (res runner.Result) {
 			res.NonTrivial = true
 			continue
 		}
+		if earlyFired {
+			d := inWin.dbi
+			if m.main[d] == nil {
+				m.main[d] = map[string]string{}
+				m.flags[d] = createFlags
+			}
+			m.main[d][string(earlyKey)] = earlyVal
+			res.Count("commits_between_call_and_transaction", 1)
+		}
 		// ---- model step
 		const nowPlaceholder = uint64(1) << 61 // between past remote stamps and future ones
 		stamped := m.capture(nowPlaceholder)
@@ -594,6 +640,12 @@ func runC11(c runner.Case, env *runner.Env) (res runner.Result) {
 						sh[k] = v
 					}
 				}
+			}
+		}
+		if earlyFired {
+			if rv, ok := realShadow[inWin.dbi][string(earlyKey)]; ok && !rv.Del && rv.Val == earlyVal && rv.TS < earlyBegin {
+				res.Violate("capture-stamp-before-commit", fmt.Sprintf("after %s (step %d): %s[%x] was committed not before %d and detected by this step, but is stamped %d (%v earlier): a remote version written in between would win wrongly", kind, step, inWin.dbi, earlyKey, earlyBegin, rv.TS, time.Duration(earlyBegin-rv.TS)), wit())
+				return
 			}
 		}
 		res.Count("steps", 1)
